@@ -8,6 +8,11 @@ Decided:
              hatch really disables it) and only when the query has text terms.
   MPT-C09c   recall safety nets of the Tantivy path: empty Tantivy results / empty evaluation fall through to
              search_with_lex_fallback with the same filter (the calls exist and are dominated by the emptiness tests).
+  ERR-C09d   silent candidate loss: try_tantivy_search drops a candidate (`continue`) when resolve_chunk_context
+             fails, so every error that function propagates is a way for a matching frame to vanish from the result.
+             The propagated error sources (`?` on a local callee), per arm of its match on the frame's role, are the
+             reviewed table below; in particular the DocumentChunk arm tolerates a failing lookup of the *parent's*
+             chunk manifest and falls back to the chunk's own text. A new propagated source is reported.
 Not decided: recall itself (what the engines return)."""
 from . import lib
 from .facts import op_place
@@ -16,7 +21,58 @@ ENGINES = ('memvid::search::tantivy::try_tantivy_search', 'memvid::search::fallb
            'memvid::search::fallback::search_with_filters_only')
 
 
+# resolve_chunk_context: role arm -> local callees whose error is propagated with `?` (reviewed on the pinned tree)
+RESOLVE_ERR_SOURCES = {
+    'Document': {'Memvid::document_chunk_payloads', 'Memvid::frame_canonical_bytes'},
+    'DocumentChunk': {'Memvid::frame_canonical_bytes'},
+    'ExtractedImage': {'Memvid::frame_canonical_bytes'},
+    '*': {'Memvid::frame_canonical_bytes'},
+}
+
+
+def candidate_loss(ctx, F):
+    ctx.rule('ERR-C09d', 'errors that make try_tantivy_search drop a candidate: per-role propagated error sources of resolve_chunk_context are the reviewed set')
+    eng = ctx.need('ERR-C09d', 'memvid::search::tantivy::try_tantivy_search')
+    fn = ctx.need('ERR-C09d', 'Memvid::resolve_chunk_context')
+    if eng is None or fn is None:
+        return
+    ctx.touch(fn, len(fn.blocks))
+    rc = eng.calls_to('Memvid::resolve_chunk_context')
+    if not rc:
+        ctx.lost('ERR-C09d', 'try_tantivy_search no longer calls resolve_chunk_context')
+        return
+    # is the failure still swallowed (not returned)? if it is returned with `?` the search fails loudly: out of this rule
+    d = lib.defs(fn)
+    roles = [v for v in lib.variant_switches(fn) if v.get('enum') == 'FrameRole']
+    if len(roles) != 1:
+        ctx.lost('ERR-C09d', 'resolve_chunk_context: expected one match on the frame role, found %d' % len(roles))
+        return
+    role = roles[0]
+    n = 0
+    for c in fn.calls():
+        if c.name != 'branch' or 'QuestionMark' not in str(c.t.get('mac')):
+            continue
+        p = op_place(c.args[0])
+        srcs = [x['call'] for x in d.get(p.l, []) if x['kind'] == 'call'] if p is not None else []
+        for sc in srcs:
+            if not sc.local_callee:
+                continue
+            n += 1
+            arm = '*'
+            for var, tb in role['arms'].items():
+                if lib.edge_dominates(fn, role['bb'], tb, c.bb):
+                    arm = var
+            ctx.evaluations += 1
+            if sc.key in RESOLVE_ERR_SOURCES.get(arm, set()):
+                ctx.ok('ERR-C09d', fn, 'reviewed error source on the %s arm: %s' % (arm, sc.key.split('::')[-1]), line=sc.line)
+            else:
+                ctx.bad('ERR-C09d', fn, 'new propagated error source on the %s arm: a failure of %s now makes try_tantivy_search silently drop the matching frame '
+                        '(the reviewed code tolerates it and falls back to the frame\'s own text)' % (arm, sc.key), line=sc.line, sink=sc.key, detail='candidate-dropped-on-error:%s:%s' % (arm, sc.key))
+    ctx.floor('ERR-C09d', n, 3, 'propagated error sources in resolve_chunk_context')
+
+
 def run(ctx):
+    candidate_loss(ctx, ctx.facts())
     ctx.rule('FLOW-C09a', 'the lossy sketch candidate set does not become the engines\' hard candidate filter')
     ctx.rule('MPT-C09b', 'sketch stage only on the no_sketch == false edge')
     ctx.rule('MPT-C09c', 'Tantivy path falls back to the lex engine on empty results/evaluation')
